@@ -13,27 +13,27 @@ from .values import Unsupported, PyRaise, Cx, VTuple, VList, VDict, VMap, VObj, 
 from . import spec
 
 Atom = z3.DeclareSort("Atom")
-KIND = z3.Function("kind", Atom, z3.IntSort())          # 0 element, 1 isotope, 2 ion
-BASE = z3.Function("element_of", Atom, Atom)            # .element of an isotope or ion
-CHARGE = z3.Function("charge", Atom, z3.IntSort())
-ISO = z3.Function("isotope_number", Atom, z3.IntSort())
-NUMBER = z3.Function("number", Atom, z3.IntSort())
-MASS = z3.Function("mass", Atom, z3.RealSort())
-SYMBOL = z3.Function("symbol", Atom, z3.StringSort())
-OWNSYM = z3.Function("has_own_symbol", Atom, z3.BoolSort())   # 'symbol' in __dict__ (D, T)
-DENS_NONE = z3.Function("density_is_none", Atom, z3.BoolSort())
-DENS = z3.Function("density", Atom, z3.RealSort())
-COVR_NONE = z3.Function("covalent_radius_is_none", Atom, z3.BoolSort())
-COVR = z3.Function("covalent_radius", Atom, z3.RealSort())
-HAS_SLD = z3.Function("has_sld", Atom, z3.BoolSort())
-IS_ED = z3.Function("is_energy_dependent", Atom, z3.BoolSort())
-B_RE = z3.Function("b_c_re", Atom, z3.RealSort(), z3.RealSort())     # (atom, wavelength)
-B_IM = z3.Function("b_c_im", Atom, z3.RealSort(), z3.RealSort())
-SIG_S = z3.Function("sigma_s", Atom, z3.RealSort(), z3.RealSort())
-NATURAL = z3.Function("natural_of", Atom, Atom)     # spec: same atom with the isotope replaced by its element
-XRAY_NONE = z3.Function("xray_table_is_none", Atom, z3.BoolSort())
-F1 = z3.Function("f1", Atom, z3.RealSort(), z3.RealSort())
-F2 = z3.Function("f2", Atom, z3.RealSort(), z3.RealSort())
+KIND = z3.Function("atom.kind", Atom, z3.IntSort())          # 0 element, 1 isotope, 2 ion
+BASE = z3.Function("atom.element_of", Atom, Atom)            # .element of an isotope or ion
+CHARGE = z3.Function("atom.charge", Atom, z3.IntSort())
+ISO = z3.Function("atom.isotope_number", Atom, z3.IntSort())
+NUMBER = z3.Function("atom.number", Atom, z3.IntSort())
+MASS = z3.Function("atom.mass", Atom, z3.RealSort())
+SYMBOL = z3.Function("atom.symbol", Atom, z3.StringSort())
+OWNSYM = z3.Function("atom.has_own_symbol", Atom, z3.BoolSort())   # 'symbol' in __dict__ (D, T)
+DENS_NONE = z3.Function("atom.density_is_none", Atom, z3.BoolSort())
+DENS = z3.Function("atom.density", Atom, z3.RealSort())
+COVR_NONE = z3.Function("atom.covalent_radius_is_none", Atom, z3.BoolSort())
+COVR = z3.Function("atom.covalent_radius", Atom, z3.RealSort())
+HAS_SLD = z3.Function("atom.has_sld", Atom, z3.BoolSort())
+IS_ED = z3.Function("atom.is_energy_dependent", Atom, z3.BoolSort())
+B_RE = z3.Function("atom.b_c_re", Atom, z3.RealSort(), z3.RealSort())     # (atom, wavelength)
+B_IM = z3.Function("atom.b_c_im", Atom, z3.RealSort(), z3.RealSort())
+SIG_S = z3.Function("atom.sigma_s", Atom, z3.RealSort(), z3.RealSort())
+NATURAL = z3.Function("atom.natural_of", Atom, Atom)     # spec: same atom with the isotope replaced by its element
+XRAY_NONE = z3.Function("atom.xray_table_is_none", Atom, z3.BoolSort())
+F1 = z3.Function("atom.f1", Atom, z3.RealSort(), z3.RealSort())
+F2 = z3.Function("atom.f2", Atom, z3.RealSort(), z3.RealSort())
 ELECTRON_MASS = None
 
 
